@@ -491,6 +491,50 @@ func TestC04(t *testing.T) {
 	for _, e := range c04Entries {
 		entryByName[e.name] = e
 	}
+	// type pairs: a list (property and top-level array) holding one member of each of two type names, for every ordered pair of names:
+	// list decoding compares every member with the earlier ones, and which comparison runs depends on both types
+	var pairNames []string
+	for _, ti := range vocab.GroundTruth {
+		pairNames = append(pairNames, string(ti.Name))
+	}
+	pairNames = append(pairNames, "", "Emoji")
+	pairDoc := func(a, b string, form int) []byte {
+		m := func(tn, id string) string {
+			if tn == "" {
+				return fmt.Sprintf(`{"id":%q,"name":"n"}`, id)
+			}
+			return fmt.Sprintf(`{"id":%q,"type":%q,"name":"n","href":"https://example.com/h"}`, id, tn)
+		}
+		x, y := m(a, "https://example.com/m/1"), m(b, "https://example.com/m/2")
+		switch form {
+		case 0:
+			return []byte(`{"type":"Note","id":"https://example.com/n","attachment":[` + x + `,` + y + `]}`)
+		case 1:
+			return []byte(`[` + x + `,` + y + `]`)
+		}
+		// the same id on both members
+		return []byte(`{"type":"Create","id":"https://example.com/c","tag":[` + m(a, "https://example.com/m/1") + `,` + m(b, "https://example.com/m/1") + `]}`)
+	}
+	nPairs := len(pairNames) * len(pairNames)
+	if childLayer() == "type-pairs" {
+		runChild(nPairs, func(i int) ([]keyed, string) {
+			a, b := pairNames[i/len(pairNames)], pairNames[i%len(pairNames)]
+			info := fmt.Sprintf("[%s, %s]", a, b)
+			var ds []keyed
+			for form := 0; form < 3; form++ {
+				d, oc := c04Call(entryByName["UnmarshalJSON"], pairDoc(a, b, form), false)
+				for _, x := range d {
+					x.Key += " type-pair"
+					ds = append(ds, x)
+				}
+				if oc == "hang" {
+					return ds, "RESTART after a hang: " + info
+				}
+			}
+			return ds, info
+		})
+		return
+	}
 	if childLayer() == "chains" {
 		hangs, _ := strconv.Atoi(os.Getenv("VERIF_CHILD_RESTARTS")) // hangs seen by earlier child processes of this layer
 		runChild(len(chainCells), func(i int) ([]keyed, string) {
@@ -543,7 +587,7 @@ func TestC04(t *testing.T) {
 	defer r.Close(t)
 	r.Rule("tiny: the empty input and every 1-byte input at every decode entry point (exhaustive); hostile: ~100 hand-written kind-confused / out-of-range / malformed documents at every entry point; truncation: every prefix of " +
 		"the seed documents (19 repository mocks, one every-field-set document per type) and of the gob encodings of every-field-set values, at the matching entry points; nesting: arrays/objects/lists/language maps/" +
-		"collections nested 1..200000 deep, chains (every type name x every item-valued term nested 28 deep, ~1800 documents) and gob values nested up to 18 deep, in a child process (a stack overflow is fatal) with an allocation bound; structure-aware random: seeds with a random node replaced by " +
+		"collections nested 1..200000 deep, chains (every type name x every item-valued term nested 28 deep, ~1800 documents), type pairs (a list of two members for every ordered pair of type names, three document forms) and gob values nested up to 18 deep, in a child process (a stack overflow is fatal) with an allocation bound; structure-aware random: seeds with a random node replaced by " +
 		"another kind, duplicated members, huge numbers, invalid UTF-8, byte flips and rewritten length bytes in gob streams; corpus: saved fuzz inputs; thorough adds a native coverage-guided fuzz campaign. " +
 		"Oracle: no panic, returns within a 10 s watchdog, allocation <= 64 MiB + 4 KiB per input byte (measured layers), and the follow-up battery (IsNil, NotEmpty, predicates, ItemsEqual(v,v), both encoders, fmt, " +
 		"DerefItem) on every value returned without error. non-trivial = the input is accepted by the underlying parser (JSON parses / gob decodes) and reaches a loader; distinct by entry point + input bytes")
@@ -749,6 +793,27 @@ func TestC04(t *testing.T) {
 		}
 		r.Cells(len(nestCells), len(nestCells))
 		r.Exhaustive("nesting", true)
+	}
+
+	if r.WantLayer("type-pairs", true) && !r.Replaying() {
+		results := runInChildren(t, "type-pairs", nPairs, 15*time.Minute)
+		for i, res := range results {
+			a, b := pairNames[i/len(pairNames)], pairNames[i%len(pairNames)]
+			cell := fmt.Sprintf("type-pair [%s, %s]", a, b)
+			r.Case(cell, true, "type-pairs")
+			if i%401 == 0 {
+				r.Sample(cell, map[string]interface{}{"layer": "type-pairs", "document": string(pairDoc(a, b, 0))})
+			}
+			if res.Fatal != "" {
+				r.Report("type-pairs", cell, "total fatal type-pair", res.Fatal+" | "+cell, cell)
+				continue
+			}
+			for _, d := range res.Diffs {
+				r.Report("type-pairs", cell, d.Key, d.Detail+" | "+cell, cell)
+			}
+		}
+		r.Cells(nPairs, nPairs)
+		r.Exhaustive("type-pairs", true)
 	}
 
 	if r.WantLayer("chains", true) && !r.Replaying() {
